@@ -22,7 +22,7 @@ RULE = (
     "with refresh and non-refresh steps, presence-mask changes and lr / weight-decay edits). Non-trivial = dynamo compiled >= 1 frame and the history contains a "
     "presence-mask change or the warm-up -> preconditioned switch. Distinct = canonical JSON."
 )
-BOUNDS = "float32 parameters, numel <= 60, <= 8 steps; inductor is outside the property's premise (it does not preserve eager numerics)"
+BOUNDS = "float32 parameters, numel <= 60, <= 8 steps incl. rollbacks into the live optimizers; inductor is outside the property's premise (it does not preserve eager numerics)"
 ASSUMPTIONS = ["torch._dynamo.utils.counters['frames']['ok'] counts successfully compiled frames"]
 NONTRIVIAL_FLOOR = 4
 
